@@ -5,7 +5,10 @@ import (
 	"github.com/cocosip/go-dicom-codecs/jpeg/standard"
 )
 
-func init() { vrt.Register("VerifC16Header", VerifC16Header) }
+func init() {
+	vrt.Register("VerifC16Header", VerifC16Header)
+	vrt.Register("VerifC16Stream", VerifC16Stream)
+}
 
 // c16Walk is a strict, independent JPEG marker walker: SOI, marker segments
 // whose length fields are consistent, one scan, EOI, nothing after.  It
@@ -79,6 +82,16 @@ func c16Walk(b []byte) c16Frame {
 	return f
 }
 
+// c16BufLen: natively the exact frame size; under the engine (where the
+// sample loops are cut and only the length check reads it) the largest size
+// any choice of dimensions needs, so that the length is concrete.
+func c16BufLen(exact, c int) int {
+	if vrt.Symbolic() {
+		return 65535 * c * 2
+	}
+	return exact
+}
+
 // c16Dims: one dimension over the whole 16-bit range (needs both bytes of the
 // field), the other small, so that the native replay stays small.
 func c16Dims() (int, int) {
@@ -99,7 +112,7 @@ func VerifC16Header() {
 	c := []int{1, 3}[vrt.Choice("c", 0, 1)]
 	P := vrt.Int("P", 2, 16)
 	pred := vrt.Int("pred", 1, 7)
-	px := make([]byte, w*h*c*2)
+	px := make([]byte, c16BufLen(w*h*c*2, c))
 	if vrt.Symbolic() {
 		vrt.StubWith("(*"+llPkg+".Encoder).pixelsToSamples", func(enc *Encoder, p []byte) [][]int { return nil })
 		vrt.StubWith("(*"+llPkg+".Encoder).optimizeHuffmanTables", func(enc *Encoder, samples [][]int) {
@@ -123,5 +136,25 @@ func VerifC16Header() {
 	vrt.Assert(f.w == w && f.h == h, "C16 frame header declares the given width and height (both bytes)")
 	vrt.Assert(f.comp == c && f.precision == P, "C16 frame header declares the given component count and precision")
 	vrt.Assert(len(f.sos) == 1+2*c+3 && int(f.sos[0]) == c && int(f.sos[1+2*c]) == pred, "C16 scan header declares the component count and the predictor")
+	vrt.Out("w", f.w)
+}
+
+// VerifC16Stream: complete frames with real entropy-coded data (nothing
+// stubbed) walked by the strict marker walker: no unescaped marker inside the
+// scan, EOI terminates the frame, nothing follows.
+func VerifC16Stream() {
+	P := []int{8, 16, 3}[vrt.Choice("Pi", 0, 1+vrt.Tier())]
+	g := [][3]int{{2, 1, 1}, {1, 2, 1}, {1, 1, 3}, {2, 2, 1}}[vrt.Choice("geom", 0, 1+2*vrt.Tier())]
+	w, h, c := g[0], g[1], g[2]
+	pred := vrt.Choice("pred", 1, 7)
+	px := symPixels("px", w*h*c, P)
+	s, err := Encode(px, w, h, c, P, pred)
+	vrt.Assert(err == nil, "C16 Encode accepts a valid image")
+	if err != nil {
+		return
+	}
+	f := c16Walk(s)
+	vrt.Assert(f.ok, "C16 complete frame: SOI, consistent segments, scan without unescaped markers, EOI, nothing after")
+	vrt.Assert(f.w == w && f.h == h && f.comp == c && f.precision == P, "C16 frame header declares the image geometry")
 	vrt.Out("len", len(s))
 }
